@@ -1401,6 +1401,17 @@ class Ex:
         if fi.cls is not None and args and fi.kind in ("function", "getter", "setter"):
             new.self_val = args[0]
         self.bind(fi, new, args, kwargs, fr)
+        memo = None
+        if any(d.split("(")[0].split(".")[-1] in ("lru_cache", "cache") for d in fi.decorators):
+            # functools.lru_cache / cache (library contract): a call whose arguments equal those of an earlier call returns
+            # the SAME object as that call (no re-execution); eviction only ever causes a re-execution
+            memo = self.st.ghost.setdefault("LRU", {}).setdefault(fi.qualname, [])
+            key = [new.locals[a.arg] for a in fi.node.args.posonlyargs + fi.node.args.args + fi.node.args.kwonlyargs if a.arg in new.locals]
+            for old_key, old_val in memo:
+                if len(old_key) == len(key):
+                    c = z_and(*[self.eq(a, b) for a, b in zip(old_key, key)])
+                    if (c is True) or (not isinstance(c, bool) and self.st.branch(c)):
+                        return old_val
         is_gen = any(isinstance(n, (ast.Yield, ast.YieldFrom)) for n in self.own_nodes(fi.node))
         self.depth += 1
         prev_unchecked = getattr(self, "unchecked_indexing", None)
@@ -1419,7 +1430,11 @@ class Ex:
             try:
                 self.exec_block(fi.node.body, new)
             except _Return as r:
+                if memo is not None:
+                    memo.append((key, r.val))
                 return r.val
+            if memo is not None:
+                memo.append((key, NONE))
             return NONE
         finally:
             self.depth -= 1
